@@ -112,6 +112,54 @@ def life(spec):
                 pass
         ex.shutdown(wait=True)
         del ex, fs, f
+    elif kind == "plain_broken_tree":
+        # the pool breaks while another worker has helper subprocesses (with the fault plan of this kind, one of them exits and
+        # is reaped between the listing of that worker's tree and its kill); the executor is released without waiting
+        ex = ProcessPoolExecutor(max_workers=2)
+        ex.submit(T.ident, 1).result()
+        f1 = ex.submit(T.tree_nap, 2 + spec["n"] % 2, 30)
+        time.sleep(0.4)
+        f2 = ex.submit(T.die, 3)
+        for f in (f2, f1):
+            try:
+                f.result(timeout=60)
+            except BrokenProcessPool:
+                pass
+        ex.shutdown(wait=False)
+        del ex, f, f1, f2
+        gc.collect()
+        time.sleep(0.3)
+    elif kind == "reusable_grow_worker_killed":
+        # an old worker is killed from outside while a grow request is spawning the additional workers
+        ex = get_reusable_executor(max_workers=w, timeout=None)
+        list(ex.map(T.ident, range(spec["n"])))
+        old = list(ex._processes)
+        stop = threading.Event()
+
+        def killer(ex=ex, old=old):
+            t0 = time.time()
+            while not stop.is_set() and time.time() - t0 < 20:
+                if len(ex._processes) > len(old):
+                    try:
+                        os.kill(old[0], 9)
+                    except OSError:
+                        pass
+                    return
+                time.sleep(0.0005)
+
+        th = threading.Thread(target=killer)
+        th.start()
+        try:
+            ex = get_reusable_executor(max_workers=w + 3, timeout=None)
+        except Exception:
+            pass
+        stop.set()
+        th.join()
+        time.sleep(0.3 * (spec["n"] % 3))
+        del ex
+        ex = get_reusable_executor(max_workers=w, timeout=None)
+        ex.submit(T.ident, 1).result()
+        del ex, th
     elif kind == "plain_broken_gc":
         ex = ProcessPoolExecutor(max_workers=w)
         ex.submit(T.ident, 1).result()
